@@ -9,7 +9,7 @@
    strand, or where orientation enters, commutes with mirroring - the composition over a whole run is covered by the
    correspondence on mirrored pairs. *)
 From VV Require Import Model.Base Model.Pattern Model.Seq Model.CodonTable Model.Transcript Model.Mirror
-  Spec.CodonSpec Proofs.CodonTableProofs Proofs.MirrorProofs.
+  Spec.CodonSpec Proofs.CodonTableProofs Proofs.MirrorProofs Generated.KernelsFrame Proofs.KernelFrameEquiv.
 
 (* get_range_cds_exts: prefix and suffix lengths swap under mirroring, nothing else changes (any frame, any region) *)
 Theorem C14_partial_exon_mirror : forall n s e r,
@@ -58,6 +58,14 @@ Example C14_example :
   range_cds_exts Minus (mirror_exon 40 (mkEx 10 19 0 1)) (mirror_range 40 (mkRange 12 16)) = Ok (0, 1).
 Proof. vm_compute. auto. Qed.
 
+(* translation validation: the strand branches of exon.py, translated from the source on every run, are the model's *)
+Theorem C14_strand_branches_match_source :
+  (forall e s, k_exon_first_codon_start e s = first_codon_start s e) /\
+  (forall e s pos, k_exon_codon_index_at e s pos = codon_index_at s e pos) /\
+  (forall s origin ci, k_get_codon_range s origin ci = codon_range s origin ci) /\
+  (forall s e r, k_get_range_cds_exts s e r = range_cds_exts s e r).
+Proof. exact (conj k_exon_first_codon_start_eq (conj k_exon_codon_index_at_eq (conj k_get_codon_range_eq k_get_range_cds_exts_eq))). Qed.
+
 Print Assumptions C14_partial_exon_mirror.
 Print Assumptions C14_partial_region_codon_mirror.
 Print Assumptions C14_partial_codon_index_mirror.
@@ -65,3 +73,4 @@ Print Assumptions C14_partial_alter_revcomp.
 Print Assumptions C14_partial_annotation_mirror.
 Print Assumptions C14_partial_snvre_rule_mirror.
 Print Assumptions C14_partial_top_codon_mirror.
+Print Assumptions C14_strand_branches_match_source.
